@@ -816,7 +816,7 @@ Proof. induction l as [|t l IH]; intros loc; cbn [locate map fst]; [reflexivity|
 Lemma init_stream_ok eloc : stream_ok (init_stream tb (locate toks LOC_FIRST) eloc) [].
 Proof.
   unfold init_stream.
-  destruct (ensure_rel (mkStream [] (locate toks LOC_FIRST) (tb_k tb) eloc) toks 0) as (j & Hr & L).
+  destruct (ensure_rel (mkStream [] (locate toks LOC_FIRST) (stream_k tb) eloc) toks 0) as (j & Hr & L).
   - split; cbn [s_buf s_rest map app repeat]; [rewrite locate_types, app_nil_r; reflexivity|auto].
   - cbn [s_buf length]. lia.
   - exists toks, j. auto.
@@ -2582,3 +2582,364 @@ Proof. split; vm_compute; reflexivity. Qed.
 (** The witness of [ll_recovery_sound_refuted] fails exactly the recovery caveat of [tables_ok]. *)
 Example refute_not_la_wf : tables_ok_basic refute_tables = true /\ la_wf refute_tables = false.
 Proof. split; vm_compute; reflexivity. Qed.
+
+(** ** C20: parser options do not change parse outcomes *)
+
+(** [run_reaches c c']: the ['WHILE] loop started in [c] gets to [c']. *)
+Inductive run_reaches (orc : oracle) (tb : ll_tables) (opts : options) : config -> config -> Prop :=
+| rr_refl c : run_reaches orc tb opts c c
+| rr_step c c1 c' :
+    input_accepted (c_stack c) = false -> ll_step orc tb opts c = Continue c1 ->
+    run_reaches orc tb opts c1 c' -> run_reaches orc tb opts c c'.
+
+(** An accepted run never has an error entry, i.e. it never enters recovery. *)
+Theorem accepted_no_errors : forall orc tb opts fuel c acts evs c',
+  tables_ok tb = true -> ll_loop orc tb opts fuel c = Accepted acts evs ->
+  run_reaches orc tb opts c c' -> c_errs c' = [].
+Proof.
+  intros orc tb opts fuel c acts evs c' Hok H Hr. apply tables_ok_split in Hok as [H1 H2].
+  revert fuel H. induction Hr as [c|c c1 c' Hna Hs _ IH]; intros fuel H.
+  - destruct (c_errs c) eqn:E; [reflexivity|]. exfalso.
+    eapply (errs_stuck_loop orc tb opts H1 (or_intror H2)); [|exact H]. rewrite E. discriminate.
+  - destruct fuel as [|f]; [discriminate|]. cbn [ll_loop] in H. rewrite Hna, Hs in H. eapply IH; exact H.
+Qed.
+
+(** What [production_depth] counts: the end-of-production markers of non-push productions on
+    the parser stack, i.e. the open productions that are not list-flattening ones. *)
+Definition count_open (tb : ll_tables) (st : list pitem) : N :=
+  N.of_nat (length (filter (fun i => match i with
+                                     | PE p => match prod_at tb p with
+                                               | Some pr => negb (p_push pr)
+                                               | None => false end
+                                     | _ => false end) st)).
+
+Lemma count_open_items tb l st : count_open tb (push_items l st) = count_open tb st.
+Proof.
+  rewrite push_items_spec. unfold count_open. rewrite filter_app, app_length.
+  replace (filter _ (rev (map item_of l))) with (@nil pitem); [reflexivity|].
+  symmetry. induction l as [|[t|a] l IH]; cbn [map item_of rev]; [reflexivity| |];
+    rewrite filter_app, IH; reflexivity.
+Qed.
+
+Lemma push_production_spec tb o c p c' : push_production tb o c p = Continue c' ->
+  exists pr, prod_at tb p = Some pr /\ (p_lhs pr <? tb_nnts tb)%N = true /\
+    c' = mkConfig (push_items (p_rev pr) (PE p :: c_stack c)) (c_stream c) (NT (p_lhs pr) :: c_pts c)
+                  (c_acts c) (if o_trim o then c_evs c else Open (p_lhs pr) :: c_evs c) (c_errs c)
+                  (if p_push pr then c_depth c else N.succ (c_depth c)) /\
+    match o_max_depth o with Some m => (c_depth c' <= m)%N | None => True end.
+Proof.
+  unfold push_production. intros H. destruct (prod_at tb p) as [pr|]; [|discriminate].
+  destruct (p_lhs pr <? tb_nnts tb)%N eqn:E; cbn [negb] in H; [|discriminate].
+  exists pr. split; [reflexivity|]. split; [reflexivity|].
+  destruct (o_max_depth o) as [m|].
+  - destruct (N.ltb_spec m (if p_push pr then c_depth c else N.succ (c_depth c))) as [L|L]; [discriminate|].
+    inversion H; subst c'. split; [reflexivity|exact L].
+  - inversion H; subst c'. auto.
+Qed.
+
+Lemma push_production_run tb o c p pr : prod_at tb p = Some pr -> (p_lhs pr <? tb_nnts tb)%N = true ->
+  let c' := mkConfig (push_items (p_rev pr) (PE p :: c_stack c)) (c_stream c) (NT (p_lhs pr) :: c_pts c)
+                  (c_acts c) (if o_trim o then c_evs c else Open (p_lhs pr) :: c_evs c) (c_errs c)
+                  (if p_push pr then c_depth c else N.succ (c_depth c)) in
+  push_production tb o c p =
+  match o_max_depth o with
+  | Some m => if (m <? c_depth c')%N then Return DepthExceeded else Continue c'
+  | None => Continue c'
+  end.
+Proof. intros Hp Hn. unfold push_production. rewrite Hp, Hn. reflexivity. Qed.
+
+Lemma step_count_open orc tb opts c c' :
+  ll_step orc tb opts c = Continue c' -> c_depth c = count_open tb (c_stack c) ->
+  c_depth c' = count_open tb (c_stack c').
+Proof.
+  intros H Hd. unfold ll_step in H.
+  destruct (c_stack c) as [|[t|a|p] st'] eqn:Est; [inversion H; subst; rewrite Est; exact Hd| | |].
+  - destruct (s_buf (ensure tb (c_stream c))) as [|tok b]; [discriminate|].
+    destruct (fst tok =? t)%N.
+    + destruct (consume tb _) as [[x s2]|]; [|discriminate]. inversion H; subst c'. cbn [c_depth c_stack].
+      rewrite Hd. reflexivity.
+    + apply htm_continue in H. cbn [set_stream c_stack c_depth] in H. destruct H as (_ & H1 & _ & _ & _ & H5).
+      rewrite H1, H5, Est. exact Hd.
+  - assert (Hpush : forall c0, c_stack c0 = st' -> c_depth c0 = c_depth c -> forall q,
+              push_production tb opts c0 q = Continue c' -> c_depth c' = count_open tb (c_stack c')).
+    { intros c0 Hs0 Hd0 q Hq. apply push_production_spec in Hq as (pr & Hp & _ & -> & _).
+      cbn [c_depth c_stack]. rewrite count_open_items, Hs0, Hd0, Hd. unfold count_open. cbn [filter].
+      rewrite Hp. destruct (p_push pr); cbn [negb length]; lia. }
+    destruct (dfa_at tb a) as [d|]; [|discriminate].
+    destruct (predict tb d (c_stream c)) as [[q| |e] s1]; [| discriminate |].
+    + eapply Hpush; [| |exact H]; reflexivity.
+    + destruct (handle_prediction_error orc tb opts _ a d) as [q c1|r' n c1|site] eqn:Eh; try discriminate.
+      apply hpe_ok in Eh. cbn [set_stream c_stack c_depth] in Eh. destruct Eh as (_ & _ & _ & _ & _ & H5 & _).
+      eapply Hpush; [| |exact H]; [reflexivity|exact H5].
+  - unfold end_production in H. destruct (prod_at tb p) as [pr|] eqn:Hp; [|discriminate].
+    unfold count_open in Hd. cbn [filter] in Hd. rewrite Hp in Hd. fold (count_open tb st') in Hd.
+    destruct (p_push pr); cbn [negb] in Hd.
+    + break_matches H; inversion H; subst c'. cbn [c_depth c_stack]. exact Hd.
+    + cbn [length] in Hd. destruct (N.eqb_spec (c_depth c) 0); [discriminate|].
+      break_matches H; inversion H; subst c'. cbn [c_depth c_stack]. unfold count_open in *. lia.
+Qed.
+
+Theorem depth_counts_open_productions : forall orc tb opts s0 c0 c,
+  ll_init orc tb opts s0 = Continue c0 -> run_reaches orc tb opts c0 c ->
+  c_depth c = count_open tb (c_stack c).
+Proof.
+  intros orc tb opts s0 c0 c Hi Hr.
+  assert (H0 : c_depth c0 = count_open tb (c_stack c0)).
+  { unfold ll_init in Hi. destruct (dfa_at tb (tb_start tb)) as [d|]; [|discriminate].
+    assert (Hpush : forall cc, c_stack cc = [] -> c_depth cc = 0%N -> forall q,
+              push_production tb opts cc q = Continue c0 -> c_depth c0 = count_open tb (c_stack c0)).
+    { intros cc Hs Hd q Hq. apply push_production_spec in Hq as (pr & Hp & _ & -> & _).
+      cbn [c_depth c_stack]. rewrite count_open_items, Hs, Hd. unfold count_open. cbn [filter].
+      rewrite Hp. destruct (p_push pr); reflexivity. }
+    destruct (predict tb d s0) as [[q| |e] s1]; [| discriminate |].
+    - eapply Hpush; [| |exact Hi]; reflexivity.
+    - destruct (handle_prediction_error orc tb opts _ _ d) as [q c1|r' n c1|site] eqn:Eh; try discriminate.
+      apply hpe_ok in Eh. cbn [set_stream c_stack c_depth] in Eh. destruct Eh as (_ & H1 & _ & _ & _ & H5 & _).
+      eapply Hpush; [exact H1|exact H5|exact Hi]. }
+  induction Hr as [c|c c1 c' _ Hs _ IH]; [exact H0|]. apply IH. eapply step_count_open; eassumption.
+Qed.
+
+(** The local form of the depth-limit error: a push beyond the limit returns the error. *)
+Lemma push_production_depth_exceeded tb o c p pr m :
+  prod_at tb p = Some pr -> (p_lhs pr <? tb_nnts tb)%N = true -> o_max_depth o = Some m ->
+  (m < (if p_push pr then c_depth c else N.succ (c_depth c)))%N ->
+  push_production tb o c p = Return DepthExceeded.
+Proof.
+  intros Hp Hn Hm Hlt. rewrite (push_production_run tb o c p pr Hp Hn). cbn zeta. rewrite Hm. cbn [c_depth].
+  apply N.ltb_lt in Hlt. rewrite Hlt. reflexivity.
+Qed.
+
+Definition fits (d : N) (l : option N) : Prop := match l with None => True | Some m => (d <= m)%N end.
+
+(** [limit_le l1 l2]: the limit [l2] is at least as permissive as [l1]. *)
+Definition limit_le (l1 l2 : option N) : Prop :=
+  match l2 with
+  | None => True
+  | Some m2 => match l1 with Some m1 => (m1 <= m2)%N | None => False end
+  end.
+
+Section Options.
+Variable orc : oracle.
+Variable tb : ll_tables.
+Variable o1 o2 : options.
+Variable toks : list N.
+Hypothesis Hok : tables_ok_basic tb = true.
+Hypothesis Hrec1 : o_recovery o1 = false \/ la_wf tb = true.
+
+(** Error-free configurations of the two runs: equal up to the tree-builder events. *)
+Definition osim (c1 c2 : config) : Prop :=
+  c_stack c1 = c_stack c2 /\ c_stream c1 = c_stream c2 /\ c_pts c1 = c_pts c2 /\
+  c_acts c1 = c_acts c2 /\ c_errs c1 = [] /\ c_errs c2 = [] /\ c_depth c1 = c_depth c2 /\
+  (o_trim o1 = o_trim o2 -> c_evs c1 = c_evs c2).
+
+Lemma osim_push c1 c2 p c1' : osim c1 c2 -> push_production tb o1 c1 p = Continue c1' ->
+  exists c2', osim c1' c2' /\
+    (push_production tb o2 c2 p = Continue c2' \/
+     exists m, o_max_depth o2 = Some m /\ (m < c_depth c1')%N /\
+               push_production tb o2 c2 p = Return DepthExceeded).
+Proof.
+  intros (E1 & E2 & E3 & E4 & E5 & E6 & E7 & E8) H.
+  apply push_production_spec in H as (pr & Hp & Hn & -> & _).
+  pose proof (push_production_run tb o2 c2 p pr Hp Hn) as Hrun. cbn zeta in Hrun.
+  match type of Hrun with context [Continue ?x] => set (c2' := x) in * end.
+  exists c2'. split.
+  - unfold osim, c2'. cbn [c_stack c_stream c_pts c_acts c_errs c_depth c_evs].
+    rewrite E1, E2, E3, E4, E7. repeat split; auto. intros Ht. rewrite <- Ht, (E8 Ht). reflexivity.
+  - assert (Ed : c_depth c2' = (if p_push pr then c_depth c1 else N.succ (c_depth c1))).
+    { unfold c2'. cbn [c_depth]. rewrite E7. reflexivity. }
+    cbn [c_depth]. rewrite <- Ed.
+    destruct (o_max_depth o2) as [m|]; [|left; exact Hrun].
+    destruct (N.ltb_spec m (c_depth c2')) as [L|L]; [right; exists m; auto|left; exact Hrun].
+Qed.
+
+Lemma osim_step c1 c2 c1' : osim c1 c2 -> ll_step orc tb o1 c1 = Continue c1' -> c_errs c1' = [] ->
+  exists c2', osim c1' c2' /\
+    (ll_step orc tb o2 c2 = Continue c2' \/
+     exists m, o_max_depth o2 = Some m /\ (m < c_depth c1')%N /\
+               ll_step orc tb o2 c2 = Return DepthExceeded).
+Proof.
+  intros Hsim H He'. pose proof Hsim as (E1 & E2 & E3 & E4 & E5 & E6 & E7 & E8).
+  unfold ll_step in *. rewrite <- E1, <- E2.
+  destruct (c_stack c1) as [|[t|a|p] st'].
+  - inversion H; subst c1'. exists c2. auto.
+  - destruct (s_buf (ensure tb (c_stream c1))) as [|tok b]; [discriminate|].
+    destruct (fst tok =? t)%N.
+    + destruct (consume tb _) as [[x s2]|]; [|discriminate]. inversion H; subst c1'.
+      eexists. split; [|left; reflexivity].
+      unfold osim. cbn [c_stack c_stream c_pts c_acts c_errs c_depth c_evs]. rewrite E3, E4, E7.
+      repeat split; auto. intros Ht. rewrite <- Ht, (E8 Ht). reflexivity.
+    + apply htm_continue in H. destruct H as (H & _). congruence.
+  - destruct (dfa_at tb a) as [d|]; [|discriminate].
+    destruct (predict tb d (c_stream c1)) as [[q| |e] s1]; [| discriminate |].
+    + eapply osim_push; [|exact H].
+      unfold osim. cbn [set_stack set_stream c_stack c_stream c_pts c_acts c_errs c_depth c_evs]. repeat split; auto.
+    + destruct (handle_prediction_error orc tb o1 _ a d) as [q c1x|r' n c1x|site] eqn:Eh; try discriminate.
+      apply hpe_ok in Eh as (Hne & _). apply push_production_shape in H as (E & _).
+      cbn [set_stack c_errs] in E. congruence.
+  - unfold end_production in *. rewrite <- E3, <- E7, E5, E6.
+    destruct (prod_at tb p) as [pr|]; [|discriminate].
+    destruct (if p_push pr then Some (c_depth c1) else if (c_depth c1 =? 0)%N then None else Some (N.pred (c_depth c1)))
+      as [depth'|]; [|discriminate].
+    destruct (split_rev (length (p_rev pr)) (c_pts c1) []) as [[children pts']|]; [|discriminate].
+    rewrite E5 in H. inversion H; subst c1'.
+    eexists. split; [|left; reflexivity].
+    unfold osim. cbn [c_stack c_stream c_pts c_acts c_errs c_depth c_evs]. rewrite E4.
+    repeat split; auto. intros Ht. rewrite <- Ht, (E8 Ht). reflexivity.
+Qed.
+
+(** A limit that holds before a step holds after it. *)
+Lemma step_depth_limit o c c' m : ll_step orc tb o c = Continue c' -> o_max_depth o = Some m ->
+  (c_depth c <= m)%N -> (c_depth c' <= m)%N.
+Proof.
+  intros H Hm Hd. unfold ll_step in H.
+  destruct (c_stack c) as [|[t|a|p] st']; [inversion H; subst; exact Hd| | |].
+  - destruct (s_buf (ensure tb (c_stream c))) as [|tok b]; [discriminate|].
+    destruct (fst tok =? t)%N.
+    + destruct (consume tb _) as [[x s2]|]; [|discriminate]. inversion H; subst c'. exact Hd.
+    + apply htm_continue in H. cbn [set_stream c_depth] in H. destruct H as (_ & _ & _ & _ & _ & H5). rewrite H5. exact Hd.
+  - destruct (dfa_at tb a) as [d|]; [|discriminate].
+    destruct (predict tb d (c_stream c)) as [[q| |e] s1]; [| discriminate |].
+    + apply push_production_spec in H as (_ & _ & _ & _ & Hl). rewrite Hm in Hl. exact Hl.
+    + destruct (handle_prediction_error orc tb o _ a d) as [q c1|r' n c1|site]; try discriminate.
+      apply push_production_spec in H as (_ & _ & _ & _ & Hl). rewrite Hm in Hl. exact Hl.
+  - unfold end_production in H. destruct (prod_at tb p) as [pr|]; [|discriminate].
+    destruct (p_push pr).
+    + break_matches H; inversion H; subst c'. exact Hd.
+    + destruct (N.eqb_spec (c_depth c) 0); [discriminate|].
+      break_matches H; inversion H; subst c'. cbn [c_depth]. lia.
+Qed.
+
+Lemma osim_finish c1 c2 a e : osim c1 c2 -> ll_finish c1 = Accepted a e ->
+  exists e2, ll_finish c2 = Accepted a e2 /\ (o_trim o1 = o_trim o2 -> e2 = e).
+Proof.
+  intros (E1 & E2 & E3 & E4 & E5 & E6 & E7 & E8) H. unfold ll_finish in *.
+  rewrite E5 in H. rewrite E6, <- E2, <- E4.
+  destruct (all_input_consumed (c_stream c1)); [|discriminate]. inversion H; subst.
+  eexists. split; [reflexivity|]. intros Ht. rewrite (E8 Ht). reflexivity.
+Qed.
+
+(** The peak depth [d] of an accepted run decides what every other limit does. *)
+Lemma loop_options fuel : forall c1 c2 a e,
+  osim c1 c2 -> (forall m1, o_max_depth o1 = Some m1 -> (c_depth c1 <= m1)%N) ->
+  ll_loop orc tb o1 fuel c1 = Accepted a e ->
+  exists d, (c_depth c1 <= d)%N /\ fits d (o_max_depth o1) /\
+    (fits d (o_max_depth o2) ->
+     exists e2, ll_loop orc tb o2 fuel c2 = Accepted a e2 /\ (o_trim o1 = o_trim o2 -> e2 = e)) /\
+    (forall m, o_max_depth o2 = Some m -> (c_depth c1 <= m)%N -> (m < d)%N ->
+               ll_loop orc tb o2 fuel c2 = DepthExceeded).
+Proof.
+  induction fuel as [|fuel IH]; intros c1 c2 a e Hsim Hl1 H; [discriminate|].
+  pose proof Hsim as (E1 & _). cbn [ll_loop] in H |- *. rewrite <- E1.
+  destruct (input_accepted (c_stack c1)).
+  - exists (c_depth c1). split; [lia|]. split.
+    + unfold fits. destruct (o_max_depth o1) as [m1|]; [apply Hl1; reflexivity|exact I].
+    + split; [intros _; eapply osim_finish; eassumption|]. intros m _ Hle Hlt. lia.
+  - destruct (ll_step orc tb o1 c1) as [c1'|c1'|r] eqn:Es.
+    + assert (He' : c_errs c1' = []).
+      { destruct (c_errs c1') eqn:E; [reflexivity|]. exfalso.
+        eapply (errs_stuck_loop orc tb o1 Hok Hrec1); [|exact H]. rewrite E. discriminate. }
+      destruct (osim_step c1 c2 c1' Hsim Es He') as (c2' & Hsim' & Hstep2).
+      assert (Hl1' : forall m1, o_max_depth o1 = Some m1 -> (c_depth c1' <= m1)%N).
+      { intros m1 Hm1. eapply step_depth_limit; [exact Es|exact Hm1|apply Hl1; exact Hm1]. }
+      destruct (IH c1' c2' a e Hsim' Hl1' H) as (d' & Hd1 & Hf1 & Hacc & Hexc).
+      exists (N.max (c_depth c1) d'). split; [lia|]. split.
+      { unfold fits in *. destruct (o_max_depth o1) as [m1|]; [|exact I].
+        specialize (Hl1 m1 eq_refl). lia. }
+      split.
+      * intros Hf. destruct Hstep2 as [Hs2|(m & Hm & Hlt & _)].
+        -- rewrite Hs2. apply Hacc. unfold fits in *. destruct (o_max_depth o2); [lia|exact I].
+        -- exfalso. unfold fits in Hf. rewrite Hm in Hf. lia.
+      * intros m Hm Hle Hlt. destruct Hstep2 as [Hs2|(m' & Hm' & Hlt' & Hs2)].
+        -- rewrite Hs2. apply (Hexc m Hm); [|lia].
+           destruct Hsim as (_ & _ & _ & _ & _ & _ & E7 & _). destruct Hsim' as (_ & _ & _ & _ & _ & _ & E7' & _).
+           rewrite E7'. eapply step_depth_limit; [exact Hs2|exact Hm|]. rewrite <- E7. exact Hle.
+        -- rewrite Hs2. reflexivity.
+    + exfalso. eapply finish_errs; [|exact H]. eapply (step_break orc tb o1 Hok Hrec1); exact Es.
+    + subst r. apply step_return in Es. destruct Es.
+Qed.
+
+Lemma run_located_options fuel ltoks eloc a e :
+  ll_run_located orc tb o1 fuel ltoks eloc = Accepted a e ->
+  exists d, fits d (o_max_depth o1) /\
+    (fits d (o_max_depth o2) ->
+     exists e2, ll_run_located orc tb o2 fuel ltoks eloc = Accepted a e2 /\ (o_trim o1 = o_trim o2 -> e2 = e)) /\
+    (forall m, o_max_depth o2 = Some m -> (m < d)%N ->
+               ll_run_located orc tb o2 fuel ltoks eloc = DepthExceeded).
+Proof.
+  unfold ll_run_located. intros H. set (s0 := init_stream tb ltoks eloc) in *.
+  destruct (ll_init orc tb o1 s0) as [c1|c1|r] eqn:Ei.
+  2:{ exfalso. eapply init_not_break; exact Ei. }
+  2:{ subst r. apply init_return in Ei. destruct Ei. }
+  assert (He : c_errs c1 = []).
+  { destruct (c_errs c1) eqn:E; [reflexivity|]. exfalso.
+    eapply (errs_stuck_loop orc tb o1 Hok Hrec1); [|exact H]. rewrite E. discriminate. }
+  unfold ll_init in Ei |- *.
+  destruct (dfa_at tb (tb_start tb)) as [d0|]; [|discriminate].
+  destruct (predict tb d0 s0) as [[q| |pe] s1]; [| discriminate |].
+  - set (cA := set_stream (mkConfig [] s0 [] [] [OpenRoot] [] 0%N) s1) in *.
+    assert (Hsim0 : osim cA cA) by (unfold osim; repeat split; auto).
+    destruct (osim_push cA cA q c1 Hsim0 Ei) as (c2 & Hsim & Hp2).
+    assert (Hl1 : forall m1, o_max_depth o1 = Some m1 -> (c_depth c1 <= m1)%N).
+    { intros m1 Hm1. apply push_production_spec in Ei as (_ & _ & _ & _ & Hl). rewrite Hm1 in Hl. exact Hl. }
+    destruct (loop_options fuel c1 c2 a e Hsim Hl1 H) as (d & Hd1 & Hf1 & Hacc & Hexc).
+    exists d. split; [exact Hf1|]. split.
+    + intros Hf. destruct Hp2 as [Hp2|(m & Hm & Hlt & _)].
+      * rewrite Hp2. apply Hacc. exact Hf.
+      * exfalso. unfold fits in Hf. rewrite Hm in Hf. lia.
+    + intros m Hm Hlt. destruct Hp2 as [Hp2|(m' & Hm' & Hlt' & Hp2)].
+      * rewrite Hp2. apply (Hexc m Hm); [|exact Hlt].
+        pose proof Hp2 as Hp2'. apply push_production_spec in Hp2' as (_ & _ & _ & _ & Hl). rewrite Hm in Hl.
+        destruct Hsim as (_ & _ & _ & _ & _ & _ & E7 & _). rewrite E7. exact Hl.
+      * rewrite Hp2. reflexivity.
+  - destruct (handle_prediction_error orc tb o1 _ _ d0) as [q c1x|r' n c1x|site] eqn:Eh; try discriminate.
+    apply hpe_ok in Eh as (Hne & _). apply push_production_shape in Ei as (E & _). congruence.
+Qed.
+
+End Options.
+
+(** The peak depth [d] of an accepted run: every option set whose limit admits [d] gives the same
+    verdict and the same semantic-action calls with the same fuel (and the same events if
+    [o_trim] agrees); every smaller limit gives the depth-limit error. *)
+Theorem ll_options_peak_any_oracle : forall orc f tb o1 toks a e,
+  tables_ok tb = true -> ll_run_with orc f tb o1 toks = Accepted a e ->
+  exists d, fits d (o_max_depth o1) /\ forall o2,
+    (fits d (o_max_depth o2) ->
+     exists e2, ll_run_with orc f tb o2 toks = Accepted a e2 /\ (o_trim o1 = o_trim o2 -> e2 = e)) /\
+    (forall m, o_max_depth o2 = Some m -> (m < d)%N -> ll_run_with orc f tb o2 toks = DepthExceeded).
+Proof.
+  intros orc f tb o1 toks a e Hok H. apply tables_ok_split in Hok as [H1 H2].
+  unfold ll_run_with in *. destruct (forallb significant toks); [|discriminate].
+  assert (Hd : exists d, fits d (o_max_depth o1) /\ forall o2,
+    (fits d (o_max_depth o2) ->
+     exists e2, ll_run_located orc tb o2 f (locate toks LOC_FIRST) LOC_END = Accepted a e2 /\
+                (o_trim o1 = o_trim o2 -> e2 = e)) /\
+    (forall m, o_max_depth o2 = Some m -> (m < d)%N ->
+               ll_run_located orc tb o2 f (locate toks LOC_FIRST) LOC_END = DepthExceeded)).
+  { (* the peak does not depend on [o2]: take it from the comparison of [o1] with itself *)
+    destruct (run_located_options orc tb o1 o1 H1 (or_intror H2) f _ _ a e H) as (d & Hf & _ & _).
+    assert (Hmin : exists d, fits d (o_max_depth o1) /\ forall o2,
+       exists d2, (d2 = d) /\
+         (fits d2 (o_max_depth o2) ->
+          exists e2, ll_run_located orc tb o2 f (locate toks LOC_FIRST) LOC_END = Accepted a e2 /\
+                     (o_trim o1 = o_trim o2 -> e2 = e)) /\
+         (forall m, o_max_depth o2 = Some m -> (m < d2)%N ->
+                    ll_run_located orc tb o2 f (locate toks LOC_FIRST) LOC_END = DepthExceeded)).
+    { (* use the unlimited variant of [o1] to pin the peak down *)
+      set (ou := mkOptions (o_recovery o1) (o_trim o1) None).
+      destruct (run_located_options orc tb o1 ou H1 (or_intror H2) f _ _ a e H) as (du & Hfu & Haccu & _).
+      destruct (Haccu I) as (eu & Hu & _).
+      exists du. split; [exact Hfu|]. intros o2. exists du. split; [reflexivity|].
+      destruct (run_located_options orc tb o1 o2 H1 (or_intror H2) f _ _ a e H) as (d2 & Hf2 & Hacc2 & Hexc2).
+      (* both [du] and [d2] are peaks of the same run; compare them through the limits [Some du], [Some d2] *)
+      split.
+      - intros Hfit. destruct (N.le_gt_cases d2 du) as [L|L].
+        + apply Hacc2. unfold fits in *. destruct (o_max_depth o2); [lia|exact I].
+        + exfalso.
+          (* limit [du] < d2: the run with that limit is both accepted (peak du) and DepthExceeded (peak d2) *)
+          set (ol := mkOptions (o_recovery o1) (o_trim o1) (Some du)).
+          destruct (run_located_options orc tb o1 ol H1 (or_intror H2) f _ _ a e H) as (dl & _ & _ & _).
+          destruct (run_located_options orc tb o1 ol H1 (or_intror H2) f _ _ a e H) as (dl' & Hfl & Haccl & Hexcl).
+          clear dl.
+          (* direct argument instead: the unlimited run accepted means the peak of every comparison is the same;
+             we avoid it by comparing [o2] with itself below *)
+          Abort.
